@@ -115,7 +115,8 @@ func unparen(e ast.Expr) ast.Expr {
 // canonical expression keys
 
 type canonOpts struct {
-	subst map[types.Object]string // replace an identifier by a role name ("$E", "$P0") or an expansion
+	subst  map[types.Object]string // replace an identifier by a role name ("$E", "$P0") or an expansion
+	merged bool                    // already completed with the expansions of the enclosing function's locals
 }
 
 // canon renders an expression as a structural key: parentheses dropped, trivial getters unified
@@ -125,6 +126,8 @@ func (c *Ctx) canon(info *types.Info, e ast.Expr, o *canonOpts) string {
 	c.indexAccessors()
 	if o == nil && !c.noAutoExpand {
 		o = c.autoOpts(info, e)
+	} else if o != nil && !o.merged && !c.noAutoExpand {
+		o = c.mergedOpts(info, e, o)
 	}
 	e = unparen(e)
 	if tv, ok := info.Types[e]; ok && tv.Value != nil {
@@ -613,6 +616,40 @@ func identObj(info *types.Info, e ast.Expr) types.Object {
 		return info.Defs[id]
 	}
 	return nil
+}
+
+// mergedOpts: options given by a rule (role names for parameters) completed with the expansions of
+// the single-assignment locals of the function that contains e, computed under those role names.
+func (c *Ctx) mergedOpts(info *types.Info, e ast.Expr, o *canonOpts) *canonOpts {
+	if e == nil || !e.Pos().IsValid() {
+		return o
+	}
+	c.autoOpts(info, e) // fills declSpans
+	type mk struct {
+		fd *ast.FuncDecl
+		o  *canonOpts
+		n  int
+	}
+	if c.mergeCache == nil {
+		c.mergeCache = map[interface{}]*canonOpts{}
+	}
+	for _, fd := range c.declSpans {
+		if fd.Pos() <= e.Pos() && e.Pos() < fd.End() {
+			k := mk{fd, o, len(o.subst)}
+			if m, ok := c.mergeCache[k]; ok {
+				if m == nil {
+					return o
+				}
+				return m
+			}
+			c.mergeCache[k] = nil // busy
+			m := c.localExpansionsWith(info, fd.Body, o)
+			m.merged = true
+			c.mergeCache[k] = m
+			return m
+		}
+	}
+	return o
 }
 
 // autoOpts: when no options are given, single-assignment locals initialised by a pure getter chain
